@@ -137,3 +137,40 @@ Theorem C13_kernel_projection : forall params states inputs os v l a,
     Some ([map r_volume os; map r_outflow os; map r_rainfallVolume os; map r_evaporationVolume os], [v; l; a]).
 Proof. exact storage_kernel_ok. Qed.
 Print Assumptions C13_kernel_projection.
+
+(** Non-vacuity: a concrete well-formed table with ordered curves, and a concrete run (one
+    60 s step from empty with 10 m3/s inflow and a demand of 100 m3/s) that returns normally,
+    with its reported values. *)
+Example C13_example_run :
+  wf_tables ex_tbl /\ Forall2 Rle (t_minRelease ex_tbl) (t_maxRelease ex_tbl) /\
+  make_curves ex_tbl = Some ex_cv /\
+  storage_water_balance ex_tbl 60 0 [ex_in] = ROk [ex_out] 360 (0 + (360 - 0) / (500 - 0) * (5 - 0)) 0 /\
+  r_volume ex_out = 360 /\ r_outflow ex_out = 4 /\ r_rainfallVolume ex_out = 0 /\ r_evaporationVolume ex_out = 0 /\
+  release_volume ex_out = 4 * 60 /\ spill_volume ex_out = 0.
+Proof. exact storage_example_run. Qed.
+Print Assumptions C13_example_run.
+
+(** REFUTED (strict reading of "over the volumes traversed"): the release curves are
+    evaluated at the start volume and at the PREDICTED end volume of a sub-step, and the
+    corrected step may end short of the prediction.  In the run above the reservoir goes
+    from 0 to 360 m3, the maximum-release curve is 0 at every volume in [0,360], there is no
+    spill, yet the reported outflow is 4 m3/s.  [C13_release_between_curves] is therefore
+    stated over the evaluation volumes (ss_v0, ss_vp), not over [start, end]. *)
+Theorem C13_release_within_end_volumes_refuted :
+  exists tbl dt V0 x o v l a cv,
+    wf_tables tbl /\ Forall2 Rle (t_minRelease tbl) (t_maxRelease tbl) /\ 0 < dt /\
+    make_curves tbl = Some cv /\
+    storage_water_balance tbl dt V0 [x] = ROk [o] v l a /\
+    (forall u, V0 <= u <= r_volume o -> capped_piecewise cv u (t_maxRelease tbl) = Some 0) /\
+    spill_volume o = 0 /\ r_outflow o = 4.
+Proof. exact storage_release_within_end_volumes_refuted. Qed.
+Print Assumptions C13_release_within_end_volumes_refuted.
+
+(** The panic outcome excluded by [C13_volume_nonneg] is reachable with a well-formed table:
+    a dry reservoir whose table has a non-zero area at zero volume, with evaporation and no
+    inflow, makes the first trial volume negative at the 6 s floor and the Go code panics. *)
+Example C13_dry_reservoir_panics :
+  wf_tables dry_tbl /\ Forall2 Rle (t_minRelease dry_tbl) (t_maxRelease dry_tbl) /\
+  storage_water_balance dry_tbl 6 0 [dry_in] = RPanic.
+Proof. exact storage_dry_reservoir_panics. Qed.
+Print Assumptions C13_dry_reservoir_panics.
